@@ -783,17 +783,32 @@ def expr_str(F, v, depth=0):
         # a phi fed only by constants (the verdict of an inlined predicate / check helper) is named by its values, so
         # that sibling functions with the same structure compare equal; other phis stay identified by instruction
         cs = []
-        for inc in (I.incoming or []):
-            v = inc["v"]
-            if isinstance(v, dict) and v.get("k") == "c" and isinstance(v.get("v"), int):
-                cs.append(v["v"])
-            else:
-                cs = None
-                break
-        if cs:
-            # by shape, not by value: sibling wrappers return different error codes from the same structure
+        others = []
+        seen_ = set()
+        stack_ = [I]
+        while stack_ and cs is not None:
+            P_ = stack_.pop()
+            if P_.id in seen_:
+                continue
+            seen_.add(P_.id)
+            for inc in (P_.incoming or []):
+                v = inc["v"]
+                if isinstance(v, dict) and v.get("k") == "c" and isinstance(v.get("v"), int):
+                    cs.append(v["v"])
+                    continue
+                r_ = F.resolve(v)
+                if isinstance(r_, Inst) and r_.op == "phi" and len(seen_) < 16:
+                    stack_.append(r_)           # a phi of phis (helpers that call helpers, inlined): look through
+                elif depth < 6:
+                    others.append(expr_str(F, v, depth + 3))
+                else:
+                    cs = None
+                    break
+        if cs is not None and (cs or others):
+            # by shape, not by value or instruction number: sibling wrappers return different error codes from the
+            # same structure, and an inlined helper's result phi has a different number in every caller
             nz = len({c for c in cs if c != 0})
-            return "phi{%s%d nonzero}" % ("0," if 0 in cs else "", nz)
+            return "phi{%s%d nonzero%s}" % ("0," if 0 in cs else "", nz, (";" + "|".join(sorted(set(others)))) if others else "")
         return "phi#%d" % I.id
     if I.op == "icmp":
         return "icmp_%s(%s,%s)" % (I.pred, expr_str(F, I.ops[0], depth + 1), expr_str(F, I.ops[1], depth + 1))
